@@ -2117,6 +2117,39 @@ def D47_nnx_attention_positional_bias():
     return True, "positional bias / mask bound as in flax"
 
 
+def D48_arctan2_in_double_precision():
+    """C09: jnp.arctan2 exported with enable_double_precision=True agrees with float64 numpy to about 1e-12"""
+    jax, jnp = _jax()
+    import jax2onnx
+    a = np.asarray([0.3, -1.2, 2.5, 1e-3], np.float64)
+    b = np.asarray([1.1, 0.4, -0.7, 3.0], np.float64)
+    try:
+        m = jax2onnx.to_onnx(lambda x, y: jnp.arctan2(x, y), [jax.ShapeDtypeStruct((4,), np.float64)] * 2, enable_double_precision=True, model_name="d48")
+    except Exception as e:
+        return True, f"export raised {type(e).__name__} (loud)"
+    got = _run(m, [a, b])[0][0]
+    err = float(np.max(np.abs(got - np.arctan2(a, b))))
+    if got.dtype != np.float64 or err > 1e-12:
+        casts = [n.op_type for n in m.graph.node if n.op_type == "Cast"]
+        return False, f"double-precision export of jnp.arctan2 returns {got.dtype} with error {err:.3g} against float64 numpy ({len(casts)} Cast nodes: the angle is computed in single precision)"
+    return True, f"error {err:.3g}"
+
+
+def D49_scan_over_float32_xs_in_double_precision():
+    """C03/C09: lax.scan over a float32 sequence under enable_double_precision=True gives a well-typed model"""
+    jax, jnp = _jax()
+    from jax import lax
+    import jax2onnx
+
+    def f(x):
+        return lax.scan(lambda c, t: (c + t, c * t), x, jnp.arange(4, dtype=jnp.float32))
+    try:
+        m = jax2onnx.to_onnx(f, [jax.ShapeDtypeStruct((3,), np.float64)], enable_double_precision=True, model_name="d49")
+    except Exception as e:
+        return True, f"export raised {type(e).__name__} (loud)"
+    return _wellformed(m)
+
+
 def _scope_walk(model):
     """(ok, why): every value is defined before it is read, in its own graph or an enclosing one; function bodies read only their inputs"""
     def walk(g, outer, where):
@@ -2256,6 +2289,7 @@ ALL = {
     "D44": D44_lax_round_ties_away_from_zero, "D45": D45_dynamic_slice_clamps_the_start,
     "C06_cond_sites_family": C06_cond_sites_family,
     "D46": D46_jnp_mean_dtype_not_ignored, "D47": D47_nnx_attention_positional_bias,
+    "D48": D48_arctan2_in_double_precision, "D49": D49_scan_over_float32_xs_in_double_precision,
     "C13_retrace_family": C13_retrace_family, "D36": D36_jit_helper_keeps_working_after_conversion,
     "C13_rebinding_between_conversions": C13_rebinding_between_conversions,
     "D1": D1_max_nonscalar_side_operand,
